@@ -115,6 +115,13 @@ def __sync__(
     global INSTANCE_CONFIG
 
     try:
+        # Unpickle everything before storing anything: if this fails,
+        # the caller keeps assuming that we have the old state.
+        global_schema_unpacked = (
+            None if global_schema is None else pickle.loads(global_schema))
+        system_config_unpacked = (
+            None if system_config is None else pickle.loads(system_config))
+
         db = DBS.get(dbname)
         if db is None:
             assert user_schema is not None
@@ -145,10 +152,10 @@ def __sync__(
                 DBS = DBS.set(dbname, db)
 
         if global_schema is not None:
-            GLOBAL_SCHEMA = pickle.loads(global_schema)
+            GLOBAL_SCHEMA = global_schema_unpacked
 
         if system_config is not None:
-            INSTANCE_CONFIG = pickle.loads(system_config)
+            INSTANCE_CONFIG = system_config_unpacked
 
     except Exception as ex:
         raise state.FailedStateSync(
